@@ -485,6 +485,7 @@ def eff_fields(fam, name):
         for g in out:
             if g[0] == f[0]:
                 g[1], g[2] = f[1], f[2]
+                del g[3:]  # a re-annotated field is a fresh field: an ancestor's @make_mandatory no longer applies
                 break
         else:
             out.append(list(f))
